@@ -155,7 +155,7 @@ class C12(Prop):
             add(("bin", op, ("dot", A, "f"), B), "postfix")
             add(("tern", ("bin", op, A, B), C, D), "ternary")
             add(("tern", A, ("bin", op, B, C), ("bin", op, C, D)), "ternary")
-        n = 20000 if tier == "thorough" else 1200
+        n = 100000 if tier == "thorough" else 1200
         for _ in range(n):
             add(rand_tree(rng, rng.choice([2, 3, 4, 5])), "random")
         # nested ternaries are rejected, in either arm, also inside parentheses
